@@ -72,6 +72,14 @@ type interpreter struct {
 	params       map[string]int
 	condSignals  int
 	opaqueInts   bool
+	pureCache    map[*ssa.Function]purity
+	noMerge      bool
+	mergeDepth   int
+	merges       int
+	mergeAborts  int
+	memoHits     int
+	crossMemo    map[string]value
+	heapFreeCache map[*ssa.Function]bool
 	zeroStubs    map[string]bool
 }
 
@@ -478,6 +486,18 @@ func callSSA(i *interpreter, caller *frame, callpos token.Pos, fn *ssa.Function,
 		}
 	}
 
+	if len(args) > 0 && i.path != nil {
+		if r, ok := i.tryMergeCall(caller, fn, args); ok {
+			return r
+		}
+	}
+	return callSSAbody(i, caller, fn, args, env)
+}
+
+// callSSAbody interprets the body of fn in a new frame.
+func callSSAbody(i *interpreter, caller *frame, fn *ssa.Function, args []value, env []value) value {
+	fr := &frame{i: i, caller: caller, fn: fn}
+	name := fn.String()
 	// generic function body?
 	if fn.TypeParams().Len() > 0 && len(fn.TypeArgs()) == 0 {
 		panic("interp requires ssa.BuilderMode to include InstantiateGenerics to execute generics")
